@@ -36,6 +36,79 @@ def sh(cmd, cwd=None, timeout=3600, env=None):
     return p.returncode, p.stdout + p.stderr
 
 
+# ---------------------------------------------------------------- which lines of the library the correspondence run executes
+
+class LineCoverage:
+    """Records, with sys.monitoring (Python >= 3.12; every location reports once and is then disabled: no measurable cost), which
+    lines inside FUNCTION bodies of the library (VERIF_REPO/pedantic, tests excluded) are executed while the implementation runs on
+    the cases of a check.  Module and class bodies run at import time, before a check starts, and are not counted.  The evidence
+    lists per file the executable function lines, how many ran, and the lines that never ran: a change confined to lines the
+    correspondence run never reaches can only be caught by a broken proof obligation, never by a disagreement."""
+    TOOL = 4
+
+    def __init__(self):
+        self.hits = set()
+        self.on = False
+        self.root = os.path.join(os.path.realpath(REPO), 'pedantic') + os.sep
+
+    def start(self):
+        mon = getattr(sys, 'monitoring', None)
+        if mon is None:
+            return
+        try:
+            mon.use_tool_id(self.TOOL, 'pedverif-lines')
+        except ValueError:
+            return
+        root, hits = self.root, self.hits
+
+        def on_line(code, line):
+            fn = code.co_filename
+            if fn.startswith(root):
+                hits.add((fn, line))
+            return mon.DISABLE
+        mon.register_callback(self.TOOL, mon.events.LINE, on_line)
+        mon.set_events(self.TOOL, mon.events.LINE)
+        self.on = True
+
+    def stop(self):
+        if not self.on:
+            return
+        mon = sys.monitoring
+        mon.set_events(self.TOOL, 0)
+        mon.register_callback(self.TOOL, mon.events.LINE, None)
+        mon.free_tool_id(self.TOOL)
+        self.on = False
+
+    def report(self):
+        import types, inspect
+        out = {}
+        for dp, dn, fns in os.walk(self.root):
+            if os.sep + 'tests' in dp + os.sep or os.sep + 'examples' in dp + os.sep:
+                continue
+            for f in sorted(fns):
+                if not f.endswith('.py'):
+                    continue
+                path = os.path.join(dp, f)
+                try:
+                    co = compile(open(path).read(), path, 'exec')
+                except (SyntaxError, OSError):
+                    continue
+                lines, stack = set(), [co]
+                while stack:
+                    c = stack.pop()
+                    if c.co_flags & inspect.CO_OPTIMIZED:          # a function body (module and class bodies run at import time)
+                        first = c.co_firstlineno
+                        lines |= {l for _, _, l in c.co_lines() if l and l != first}
+                    stack += [k for k in c.co_consts if isinstance(k, types.CodeType)]
+                ran = {l for (fn, l) in self.hits if fn == path}
+                if not lines or not (ran & lines):
+                    continue           # a module this check never enters
+                missed = sorted(lines - ran)
+                out[os.path.relpath(path, os.path.dirname(self.root.rstrip(os.sep)))] = {
+                    'function_lines': len(lines), 'executed': len(lines & ran), 'never_executed': missed[:80]}
+        return out
+
+
 def strip_comments(src: str) -> str:
     src = re.sub(r'/-.*?-/', '', src, flags=re.S)
     return re.sub(r'--.*', '', src)
@@ -273,7 +346,12 @@ def run_check(plugin, prop, tier, seed, skip_lean=False) -> int:
     cases += gen
     all_cases = cases
     t1 = time.time()
-    res = judge_all(plugin, cases)
+    linecov = LineCoverage()
+    linecov.start()
+    try:
+        res = judge_all(plugin, cases)
+    finally:
+        linecov.stop()
     t2 = time.time()
 
     violations = []      # property failures on the implementation not covered by an open finding
@@ -393,6 +471,10 @@ def run_check(plugin, prop, tier, seed, skip_lean=False) -> int:
         'exhaustive': bool(getattr(plugin, 'EXHAUSTIVE', {}).get(tier, False)),
         'lean_wall_s': lean.get('lean_wall_s'), 'impl_and_model_wall_s': round(t2 - t1, 2),
     }
+    try:
+        cov['impl_line_coverage'] = linecov.report()
+    except Exception as e:
+        cov['impl_line_coverage'] = {'error': repr(e)}
     if hasattr(plugin, 'extra_coverage'):
         try:
             cov.update(plugin.extra_coverage(res))
